@@ -190,13 +190,16 @@ func (b *Broker) reconnectWatcher() {
 	// check event during reconnect
 	sessions, err := b.sessMgr.store.getPrefix(sessionStoreKey(""), true)
 	if err != nil {
+		// without the listing nobody can tell whose session was deleted, keep the clients
 		logger.SpanErrorf(nil, "get all session prefix failed, %v", err)
+		return
 	}
 
 	clients := []*Client{}
 	b.Lock()
 	for sessionID, client := range b.clients {
-		if _, ok := sessions[sessionID]; !ok {
+		// sessions is keyed by storage keys, b.clients by client ids
+		if _, ok := sessions[sessionStoreKey(sessionID)]; !ok {
 			clients = append(clients, client)
 		}
 	}
